@@ -28,13 +28,14 @@ HEADER = ("From Coq Require Import ZArith QArith List Bool.\nFrom CV Require Imp
 FLAGS = {1: "tie:Matrix-method!=model", 2: "tie:Inv-or-input-arc-centre", 4: "prop:control-point!=m.ctrl", 8: "prop:arc-endpoint!=m.end",
          16: "prop:arc-flags(sweep/large)", 32: "prop:arc-conic/centre!=transported", 64: "prop:arc-sample-off-output-arc",
          128: "prop:panic", 256: "prop:Inv-not-inverse", 512: "prop:Decompose-does-not-recompose", 1024: "rel:cos/sin-relation",
-         2048: "gen:inconsistent-generator-arc", 4096: "prop:command-structure-changed"}
-PROP_MASK = 4 | 8 | 16 | 32 | 64 | 128 | 256 | 512 | 4096
+         2048: "gen:inconsistent-generator-arc", 4096: "prop:command-structure-changed-or-non-finite-arc",
+         8192: "prop:non-finite-radius-for-image-ellipse-with-eigenvalue-ratio<=2^-33"}
+PROP_MASK = 4 | 8 | 16 | 32 | 64 | 128 | 256 | 512 | 4096 | 8192
 TIE_MASK = 1 | 2 | 1024 | 2048
 
 
 def sizes(ctx):
-    return dict(n=ctx.n(2000, 60000), paths=ctx.n(500, 12000), per=8)
+    return dict(n=ctx.n(1500, 40000), paths=ctx.n(300, 9000), per=6)
 
 
 def run_cases(ctx, seed, sz, only=None):
